@@ -4,6 +4,7 @@ import RedisGoModel.Raft.RQ
 import RedisGoModel.Raft.RQJoint
 import RedisGoModel.Raft.RSC
 import RedisGoModel.Raft.RHC
+import RedisGoModel.Raft.RSJ
 /-! Lock-step driver for C15 (run interpreted: `lake env lean --run RaftDriver.lean < trace`; the Raft model imports
     Mathlib, so it is not linked into the compiled `driver`).
 
@@ -612,6 +613,107 @@ def stageDHP (fs : List String) : List String × List String :=
     | _, _, _, _, _ => (["bad HP line"], [])
   | _ => (["bad HP line"], [])
 
+/-! Stage D, last step (`JF` / `JG` / `JA` / `JH` / `JP` lines, written by `harness raftsim -stageJ`, harness/raftjoint.go): the configuration
+    part of the JOINT model `Raft/RSJ.lean` against the real `RawNode` driven with ConfChangeV2 proposals of every shape —
+    `JF`: one applied conf-change entry moves the node's tracker config (all five fields) as `RSJ.applyCC`;
+    `JG`: a proposal message stepped on the leader: which entries stay conf changes, the new `pendingConfIndex` = `RSJ.gateSeq` (etcd's three reasons);
+    `JA`: one `Advance()`: the leader appends the empty ConfChangeV2 iff AutoLeave ∧ oldApplied ≤ pend ≤ newApplied, and then the model's
+          `autoLeave` step is enabled (AutoLeave ∧ pend ≤ applied) and `RSJ.gateJ` accepts a leave at that point;
+    `JH`: `Campaign()`: campaigns iff `RSJ.campaignGate` (promotable = has a Progress and is not a learner);
+    `JP`: the probe of `RSJ.enter_empty_passes_gate_and_is_refused_by_changer`. -/
+def parseCC (desc : String) : Option RSJ.CC :=
+  match desc.splitOn ":" with
+  | [k, chg] =>
+    match parseChanges chg with
+    | some ccs =>
+      if k == "l" then (if ccs.isEmpty then some .leave else none)
+      else if k == "e0" then some (.enter false ccs)
+      else if k == "e1" then some (.enter true ccs)
+      else if k == "s" then (match ccs with | [c] => some (.single c) | _ => none)
+      else none
+    | none => none
+  | _ => none
+
+def cfg5Str (c : RQJ.Config) : String :=
+  s!"{idsStr c.voters} {idsStr c.outgoing} {idsStr c.learners} {idsStr c.learnersNext} {if c.autoLeave then "1" else "0"}"
+
+def stageJF (fs : List String) : List String × List String :=
+  match fs with
+  | ["JF", _, _, desc, v0, v1, l, ln, al, w0, w1, m, mn, bl] =>
+    match parseCC desc, parseCfg v0 v1 l ln al, parseCfg w0 w1 m mn bl with
+    | some cc, some before, some after =>
+      let r := RSJ.applyCC before cc
+      let errs := if r = after then [] else [s!"JF config: model [{cfg5Str r}] impl [{cfg5Str after}]"]
+      let kind := match cc with | .single _ => "simple" | .enter false _ => "enter-explicit" | .enter true _ => "enter-autoleave" | .leave => "leave"
+      (errs, ["d:JF", "d:JF/" ++ kind, if r = before then "d:JF/unchanged" else if RQJ.joint r then "d:JF/now-joint" else "d:JF/now-simple"])
+    | _, _, _ => (["bad JF line"], [])
+  | _ => (["bad JF line"], [])
+
+def jgPayload : Char → Option Nat
+  | 'C' => some 1 | 'L' => some 4 | 'E' => some 5 | 'I' => some 6 | 'N' => some 0 | _ => none
+
+def stageJG (fs : List String) : List String × List String :=
+  match fs with
+  | ["JG", _, applied, pend, last, joint, descs, kinds, pendAfter] =>
+    match applied.toNat?, pend.toNat?, last.toNat?, bool? joint, descs.toList.mapM jgPayload, pendAfter.toNat? with
+    | some a, some p, some l, some j, some vs, some pa =>
+      let (outs, p') := RSJ.gateSeq a j p l vs
+      let m := String.ofList (outs.map fun v => if RSJ.isConfData v then '1' else '0')
+      let errs := (if m == kinds then [] else [s!"JG appended kinds: model {m} impl {kinds}"]) ++
+        (if p' == pa then [] else [s!"JG pendingConfIndex: model {p'} impl {pa}"])
+      -- the reason the FIRST conf change of the message met
+      let first := match vs.filterMap RSJ.ccOf with
+        | cc :: _ => (match RSJ.refusal a p j cc with
+          | none => "accepted"
+          | some r => if r.startsWith "possible" then "refused-pending" else if r.startsWith "must" then "refused-joint" else "refused-not-joint")
+        | [] => "no-conf-change"
+      (errs, ["d:JG", "d:JG/" ++ first] ++ (if vs.length > 1 then ["d:JG/batched"] else []))
+    | _, _, _, _, _, _ => (["bad JG line"], [])
+  | _ => (["bad JG line"], [])
+
+def stageJA (fs : List String) : List String × List String :=
+  match fs with
+  | ["JA", _, ldr, al, oldA, newA, pend, app, pendAfter, last] =>
+    match bool? ldr, bool? al, oldA.toNat?, newA.toNat?, pend.toNat?, bool? app, pendAfter.toNat?, last.toNat? with
+    | some ldr, some al, some oa, some na, some p, some app, some pa, some l =>
+      let etcdGuard := al && decide (oa ≤ p) && decide (p ≤ na) && ldr
+      let modelGuard := al && decide (p ≤ na) && ldr
+      let errs := (if app == etcdGuard then [] else [s!"JA appended: etcd's guard {etcdGuard} impl {app}"]) ++
+        (if app && !modelGuard then ["JA: appended although the model's autoLeave step is not enabled"] else []) ++
+        (if app && RSJ.gateJ na p true RSJ.leaveData != RSJ.leaveData then ["JA: appended although the gate would refuse a leave"] else []) ++
+        (if app && pa != l + 1 then [s!"JA pendingConfIndex: model {l + 1} impl {pa}"] else []) ++
+        (if !app && pa != p then [s!"JA pendingConfIndex changed without an append: {p} -> {pa}"] else [])
+      (errs, ["d:JA", if app then "d:JA/appended" else if al && ldr then "d:JA/autoleave-not-yet" else "d:JA/nothing"])
+    | _, _, _, _, _, _, _, _ => (["bad JA line"], [])
+  | _ => (["bad JA line"], [])
+
+def stageJH (fs : List String) : List String × List String :=
+  match fs with
+  | ["JH", id, role, v0, v1, l, ln, al, flags, camp] =>
+    match id.toNat?, role.toNat?, parseCfg v0 v1 l ln al, bool? camp with
+    | some id, some role, some c, some camp =>
+      let pend := (if flags == "-" then [] else flags.toList).map (· == '1')
+      let m := RSJ.campaignGate (role == 2) id c pend
+      ((if m == camp then [] else [s!"JH campaign: model {m} impl {camp}"]),
+       ["d:JH", if m then (if RQJ.joint c then "d:JH/campaigns-joint" else "d:JH/campaigns") else if role == 2 then "d:JH/leader"
+          else if pend.any (· == true) then "d:JH/refused-pending-conf" else "d:JH/refused-not-promotable"] ++
+        (if m && id ∉ c.voters then ["d:JH/campaigns-outgoing-only"] else []))
+    | _, _, _, _ => (["bad JH line"], [])
+  | _ => (["bad JH line"], [])
+
+def stageJP (fs : List String) : List String × List String :=
+  match fs with
+  | ["JP", al, v0, v1, l, ln, bl, passed, panicked] =>
+    match bool? al, parseCfg v0 v1 l ln bl, bool? passed, bool? panicked with
+    | some al, some c, some passed, some panicked =>
+      let mPass := (RSJ.refusal 0 0 (RQJ.joint c) (.enter al [])).isNone
+      let mErr := match RQJ.enterJoint al c [] with | .ok _ => false | .error _ => true
+      ((if mPass == passed then [] else [s!"JP gate: model passes={mPass} impl passed={passed}"]) ++
+       (if mErr == panicked then [] else [s!"JP apply: model Changer error={mErr} impl panicked={panicked}"]),
+       ["d:JP", if passed && panicked then "d:JP/passed-gate-and-panicked" else "d:JP/other"])
+    | _, _, _, _ => (["bad JP line"], [])
+  | _ => (["bad JP line"], [])
+
 /-- the existential package: a schedule's driver state for its own cluster size -/
 structure Sched where
   N : Nat
@@ -690,6 +792,31 @@ partial def loop (h : IO.FS.Stream) (tot : Tot) (sc : Sched) : IO Tot := do
     loop h { tot with qd := tot.qd + 1, bad := tot.bad + (if errs.isEmpty then 0 else 1) } sc
   | "HP" :: _ =>
     let (errs, ks) := stageDHP fs
+    if !errs.isEmpty then IO.println s!"MISMATCH {tot.lines} {String.intercalate " ; " errs} :: {line}"
+    let tot := ks.foldl Tot.bump tot
+    loop h { tot with qd := tot.qd + 1, bad := tot.bad + (if errs.isEmpty then 0 else 1) } sc
+  | "JF" :: _ =>
+    let (errs, ks) := stageJF fs
+    if !errs.isEmpty then IO.println s!"MISMATCH {tot.lines} {String.intercalate " ; " errs} :: {line}"
+    let tot := ks.foldl Tot.bump tot
+    loop h { tot with qd := tot.qd + 1, bad := tot.bad + (if errs.isEmpty then 0 else 1) } sc
+  | "JG" :: _ =>
+    let (errs, ks) := stageJG fs
+    if !errs.isEmpty then IO.println s!"MISMATCH {tot.lines} {String.intercalate " ; " errs} :: {line}"
+    let tot := ks.foldl Tot.bump tot
+    loop h { tot with qd := tot.qd + 1, bad := tot.bad + (if errs.isEmpty then 0 else 1) } sc
+  | "JA" :: _ =>
+    let (errs, ks) := stageJA fs
+    if !errs.isEmpty then IO.println s!"MISMATCH {tot.lines} {String.intercalate " ; " errs} :: {line}"
+    let tot := ks.foldl Tot.bump tot
+    loop h { tot with qd := tot.qd + 1, bad := tot.bad + (if errs.isEmpty then 0 else 1) } sc
+  | "JH" :: _ =>
+    let (errs, ks) := stageJH fs
+    if !errs.isEmpty then IO.println s!"MISMATCH {tot.lines} {String.intercalate " ; " errs} :: {line}"
+    let tot := ks.foldl Tot.bump tot
+    loop h { tot with qd := tot.qd + 1, bad := tot.bad + (if errs.isEmpty then 0 else 1) } sc
+  | "JP" :: _ =>
+    let (errs, ks) := stageJP fs
     if !errs.isEmpty then IO.println s!"MISMATCH {tot.lines} {String.intercalate " ; " errs} :: {line}"
     let tot := ks.foldl Tot.bump tot
     loop h { tot with qd := tot.qd + 1, bad := tot.bad + (if errs.isEmpty then 0 else 1) } sc
